@@ -13,7 +13,12 @@ func genSched(r *core.Rand, seed uint64) core.Sched {
 	return core.Sched{SchedSeed: core.Mix(seed, 11), AuxSeed: core.Mix(seed, 12), YieldThr: core.Pick(r, uint32(0), 200, 700, 3300, 13000, 30000)}
 }
 
-func genDelay(r *core.Rand) int64 {
+// genDelay draws a delay; now and then exactly the watch-expiry timeout, so
+// that a response, a stream break or an unwatch coincides with a timer.
+func genDelay(r *core.Rand, expiry int64) int64 {
+	if r.Chance(1, 12) {
+		return expiry
+	}
 	switch r.Intn(6) {
 	case 0, 1:
 		return 0
@@ -76,12 +81,12 @@ func genWX(seed uint64, tier, prop string) *wxScenario {
 	for i := 0; i < nw; i++ {
 		a := i % na
 		if i >= na || r.Chance(1, 3) {
-			s.Actors[a] = append(s.Actors[a], actorOp{Kind: "sleep", Ns: genDelay(r)})
+			s.Actors[a] = append(s.Actors[a], actorOp{Kind: "sleep", Ns: genDelay(r, s.ExpiryNs)})
 		}
 		s.Actors[a] = append(s.Actors[a], actorOp{Kind: "watch", W: i})
 		if r.Chance(1, 2) {
 			if r.Chance(2, 3) {
-				s.Actors[a] = append(s.Actors[a], actorOp{Kind: "sleep", Ns: genDelay(r)})
+				s.Actors[a] = append(s.Actors[a], actorOp{Kind: "sleep", Ns: genDelay(r, s.ExpiryNs)})
 			}
 			s.Actors[a] = append(s.Actors[a], actorOp{Kind: "unwatch", W: i})
 		}
@@ -109,7 +114,7 @@ func genWX(seed uint64, tier, prop string) *wxScenario {
 		}
 		n := r.Range(1, maxSteps)
 		for k := 0; k < n; k++ {
-			st := step{DelayNs: genDelay(r)}
+			st := step{DelayNs: genDelay(r, s.ExpiryNs)}
 			x := r.Intn(100)
 			pBreak := 22
 			if prop == "C44" {
